@@ -78,12 +78,6 @@ Definition run_C08 (i : term) : term :=
 
 (* ---- known-finding classes (decidable predicates of M_Order; the hypotheses of P_C08) ---- *)
 Definition edge_formats : list string := ["dot"; "tree"; "callgrind"].
-(* node-level form of F9 for a whole graph: two different nodes share a printable name, so two
-   edges with a common endpoint can tie *)
-Definition in_F9_nodes (l : list node) : bool :=
-  exists_pair (fun a b => negb (node_same a b)
-                          && String.eqb (printable_name (n_info a)) (printable_name (n_info b))) l.
-
 Definition cls_C08 (i : term) : list Z :=
   let op := gs (gn i 0) in
   if String.eqb op "cmp" || String.eqb op "sort" then
@@ -101,10 +95,10 @@ Definition cls_C08 (i : term) : list Z :=
     ++ (if in_F19 ns then [19] else [])
     (* F25 at the level of bytes: -dot (EntropyOrder) with weights large enough for float64 rounding
        of score*cum to reach the integer part *)
-    ++ (if String.eqb (gs (gn i 1)) "dot" && existsb (fun n => 1099511627776 <=? abs64 (n_cum n)) ns then [25] else [])
+    ++ (if String.eqb (gs (gn i 1)) "dot" && in_F25_graph ns then [25] else [])
   else if String.eqb op "ent" then
     (* F25: three or more edges on one side: the float accumulation order is visible *)
-    if (3 <=? Z.of_nat (List.length (gl (gn i 3)))) then [25] else []
+    if in_F25_node (Z.of_nat (List.length (gl (gn i 3)))) then [25] else []
   else [].
 
 Definition in_known_class (i : term) : bool := match cls_C08 i with [] => false | _ => true end.
